@@ -11,6 +11,8 @@ CONSTANTS
   BurnVeto = TRUE
   BurnPrevote = TRUE
   BurnQuorum = FALSE
+  ParamKeys = {"sendDefault", "send", "tax", "burnVeto", "burnPrevote", "burnQuorum", "minDep", "erc20"}
+  MaxParamChanges = 3
   Seeded = FALSE
   Defects = {}
 CHECK_DEADLOCK FALSE
